@@ -15,6 +15,14 @@ pub const MONO_BASE_S: i64 = 100_000;
 pub const REAL_BASE_S: i64 = 1_893_456_000;
 
 static STARTED: AtomicBool = AtomicBool::new(false);
+/// wall-clock jumps (an operator or NTP stepping the clock): added to CLOCK_REALTIME only, the monotonic clock and
+/// the scheduler's timers are unaffected, exactly as on a real host
+static WALL_OFFSET_MS: std::sync::atomic::AtomicI64 = std::sync::atomic::AtomicI64::new(0);
+
+/// Step the wall clock by `delta_ms` (negative = backwards).
+pub fn step_wall_clock(delta_ms: i64) {
+    WALL_OFFSET_MS.fetch_add(delta_ms, Ordering::SeqCst);
+}
 static LAST_NS: AtomicU64 = AtomicU64::new(0);
 static T0: OnceLock<real_tokio::time::Instant> = OnceLock::new();
 
@@ -93,8 +101,12 @@ pub unsafe extern "C" fn clock_gettime(clk: libc::clockid_t, ts: *mut libc::time
     };
     let ns = elapsed_ns();
     if !ts.is_null() {
-        (*ts).tv_sec = base + (ns / 1_000_000_000) as i64;
-        (*ts).tv_nsec = (ns % 1_000_000_000) as i64;
+        let mut total = base as i128 * 1_000_000_000 + ns as i128;
+        if base == REAL_BASE_S {
+            total += WALL_OFFSET_MS.load(Ordering::Relaxed) as i128 * 1_000_000;
+        }
+        (*ts).tv_sec = (total / 1_000_000_000) as i64;
+        (*ts).tv_nsec = (total % 1_000_000_000) as i64;
     }
     0
 }
